@@ -173,8 +173,9 @@ def checkNodes (prop : String) (c : Cfg) (ws : List Watcher) (top : Bool) : Nat 
           | none =>
             if kind == "trigger" then
               let k := ((records c 100000 false ch).flatMap (·.regs)).eraseDups.length
-              if (calls.take k).any (fun cl => cl.2.1.any (fun e => e.type != .triggered || e.old != e.new)) then
-                some "trigger: an event is not typed 'triggered' with old = new"
+              if (calls.take k).any (fun cl => cl.2.1.any (fun e => e.type != .triggered ||
+                    (e.old != e.new && !c.isEvent e.name))) then
+                some "trigger: an event is not typed 'triggered' with old = new (Event parameters: the transient True)"
               else none
             else none
         else none
